@@ -8,6 +8,7 @@ namespace AV.Rx
 
 set_option linter.unusedSectionVars false
 set_option linter.unusedSimpArgs false
+set_option linter.unusedVariables false
 
 variable {α : Type} [DecidableEq α]
 
@@ -591,6 +592,254 @@ theorem repeat_ok {b : Builder α} {l h c : Nat} (i : b.Inv l h) (hc : h ≤ c) 
           · exact Or.inl (Or.inl h1)
           · exact Or.inl (Or.inr h1)
           · exact Or.inr h1
+
+/-! ### invariant and language of the result -/
+
+/-- `⋃_{lo ≤ k ≤ hi} L^k` (`hi = none`: unbounded). -/
+def RepDen (L : List α → Prop) (lo : Nat) (hi : Option Nat) (w : List α) : Prop :=
+  ∃ k, lo ≤ k ∧ (∀ h, hi = some h → k ≤ h) ∧ LPow L k w
+
+theorem repCopies_pos (lo : Nat) (hi : Option Nat) : 1 ≤ repCopies lo hi := by
+  unfold repCopies; omega
+
+theorem repeat_inv {b r : Builder α} {l h c lo : Nat} {hi : Option Nat} (i : b.Inv l h)
+    (hc : h ≤ c) (sp : RepSpec b c lo hi r) :
+    r.Inv l (b.blockBase c (repCopies lo hi + 1)) := by
+  have hN := repCopies_pos lo hi
+  have hlh := i.lo_lt_hi
+  have keyOf : ∀ k p, 1 ≤ k → k ≤ repCopies lo hi → p ∈ b.keys → b.cp c k p ∈ r.keys :=
+    fun k p h1 h2 h3 => (sp.keys _).mpr (Or.inr ⟨k, p, h1, h2, h3, rfl⟩)
+  refine ⟨sp.keysNodup, ?_, ?_, ?_, ?_, ?_⟩
+  · intro q hq
+    rcases (sp.keys q).mp hq with rfl | ⟨k, p, h1, h2, h3, rfl⟩
+    · have := blockBase_gt b q (repCopies lo hi + 1); omega
+    · by_cases hk : k = 1
+      · subst hk; rw [cp_one]
+        have := i.keysRange _ h3
+        have := blockBase_gt b c (repCopies lo hi + 1); omega
+      · have := cp_range b c (show 2 ≤ k by omega) h3
+        have := blockBase_gt b c k
+        have := blockBase_mono b c (show k + 1 ≤ repCopies lo hi + 1 by omega)
+        omega
+  · intro q a t ht
+    rcases (sp.tg q a t).mp ht with (⟨_, _, rfl⟩ | ⟨k, p, p', h1, h2, _, rfl, h5⟩ |
+      ⟨k, p, h1, h2, _, _, _, rfl⟩) | ⟨_, _, p, _, _, rfl⟩
+    · have := keyOf 1 b.init (by omega) hN i.initKey
+      rwa [cp_one] at this
+    · exact keyOf k p' h1 h2 (i.tgtKeys _ _ _ h5)
+    · exact keyOf (k + 1) b.init (by omega) (by omega) i.initKey
+    · exact keyOf _ b.init hN (Nat.le_refl _) i.initKey
+  · rw [sp.init]; exact (sp.keys _).mpr (Or.inl rfl)
+  · intro f hf
+    rcases (sp.finals f).mp hf with ⟨_, _, h3⟩ | ⟨_, rfl⟩ | ⟨k, p, h1, h2, _, h4, rfl⟩
+    · have := keyOf 1 f (by omega) hN (i.finalsKeys _ h3)
+      rwa [cp_one] at this
+    · have := keyOf 1 b.init (by omega) hN i.initKey
+      rwa [cp_one] at this
+    · exact keyOf k p (by omega) h2 (i.finalsKeys _ h4)
+  · intro q a ht
+    rw [sp.init] at ht
+    rcases (sp.tg q a c).mp ht with (⟨_, _, e⟩ | ⟨k, p, p', h1, h2, _, e, h5⟩ |
+      ⟨k, p, h1, h2, _, _, _, e⟩) | ⟨_, _, p, _, _, e⟩
+    · have := i.keysRange _ i.initKey; omega
+    · exact cp_ne_c i hc h1 (i.tgtKeys _ _ _ h5) e.symm
+    · exact cp_ne_c i hc (by omega) i.initKey e.symm
+    · exact cp_ne_c i hc hN i.initKey e.symm
+
+/-- What may still follow after copy `k` has been completed. -/
+def RepTail (L : List α → Prop) (lo : Nat) (hi : Option Nat) (k : Nat) (w : List α) : Prop :=
+  ∃ m, lo ≤ k + m ∧ (∀ h, hi = some h → k + m ≤ h) ∧ LPow L m w
+
+/-- The language assigned to state `p` of copy `k` in the soundness proof. -/
+def RepD (b : Builder α) (lo : Nat) (hi : Option Nat) (k p : Nat) (w : List α) : Prop :=
+  LCat (b.AccFrom p) (RepTail b.Lang lo hi k) w ∨ (lo = 0 ∧ k = 1 ∧ p = b.init ∧ w = [])
+
+theorem repeat_sound {b r : Builder α} {l h c lo : Nat} {hi : Option Nat} (i : b.Inv l h)
+    (hc : h ≤ c) (sp : RepSpec b c lo hi r) (w : List α) (hw : r.Lang w) :
+    RepDen b.Lang lo hi w := by
+  have hN := repCopies_pos lo hi
+  obtain ⟨f, hf, hp⟩ := hw
+  rw [sp.init] at hp
+  -- unique decoding
+  have dec : ∀ {k p k' p'}, 1 ≤ k → p ∈ b.keys → 1 ≤ k' → p' ∈ b.keys →
+      b.cp c k p = b.cp c k' p' → k' = k ∧ p' = p := by
+    intro k p k' p' h1 h2 h3 h4 e
+    have := cp_inj i hc h1 h3 h2 h4 e
+    exact ⟨this.1.symm, this.2.symm⟩
+  have key := Path.sound (step := r.step) (Fin := fun f => f ∈ r.finals)
+    (D := fun s w => (s = c → RepD b lo hi 1 b.init w) ∧
+      (∀ k p, 1 ≤ k → k ≤ repCopies lo hi → p ∈ b.keys → s = b.cp c k p → RepD b lo hi k p w))
+    (by
+      intro s hs
+      rcases (sp.finals s).mp hs with ⟨h1, h2, h3⟩ | ⟨h1, rfl⟩ | ⟨k, p, h1, h2, h3, h4, rfl⟩
+      · have hsk := i.finalsKeys _ h3
+        refine ⟨fun e => ?_, fun k p hk1 _ hp e => ?_⟩
+        · have := i.keysRange _ hsk; omega
+        · rw [← cp_one b c s] at e
+          obtain ⟨rfl, rfl⟩ := dec (by omega) hsk hk1 hp e
+          exact Or.inl ⟨[], [], Acc.of_final h3, ⟨0, by omega, fun h0 e0 => by have := h2 h0 e0; omega, rfl⟩, rfl⟩
+      · refine ⟨fun e => ?_, fun k p hk1 _ hp e => ?_⟩
+        · have := i.keysRange _ i.initKey; omega
+        · rw [← cp_one b c b.init] at e
+          obtain ⟨rfl, rfl⟩ := dec (by omega) i.initKey hk1 hp e
+          exact Or.inr ⟨h1, rfl, rfl, rfl⟩
+      · have hpk := i.finalsKeys _ h4
+        refine ⟨fun e => absurd e (cp_ne_c i hc (by omega) hpk), fun k' p' hk1 _ hp' e => ?_⟩
+        obtain ⟨rfl, rfl⟩ := dec (by omega) hpk hk1 hp' e
+        refine Or.inl ⟨[], [], Acc.of_final h4, ⟨0, by omega, fun h0 e0 => ?_, rfl⟩, rfl⟩
+        subst e0
+        unfold repCopies at h2
+        simp only at h2
+        omega)
+    (by
+      intro s t w hs hD
+      rcases (sp.tg s none t).mp hs with (⟨hsc, _, htb⟩ | ⟨k, p, p', h1, h2, rfl, rfl, h5⟩ |
+        ⟨k, p, h1, h2, _, h4, rfl, rfl⟩) | ⟨hnone, _, p, h4, rfl, rfl⟩
+      · refine ⟨fun _ => ?_, fun k p hk1 _ hp e => ?_⟩
+        · exact hD.2 1 b.init (by omega) hN i.initKey (by rw [htb, cp_one])
+        · rw [hsc] at e; exact absurd e.symm (cp_ne_c i hc hk1 hp)
+      · have hpk := i.srcKey h5
+        have hpk' := i.tgtKeys _ _ _ h5
+        refine ⟨fun e => absurd e (cp_ne_c i hc h1 hpk), fun k2 p2 hk1 _ hp2 e => ?_⟩
+        obtain ⟨rfl, rfl⟩ := dec h1 hpk hk1 hp2 e
+        rcases hD.2 k2 p' h1 h2 hpk' rfl with ⟨u, v, hu, hv, rfl⟩ | ⟨_, _, e3, _⟩
+        · exact Or.inl ⟨u, v, Acc.eps h5 hu, hv, rfl⟩
+        · subst e3; exact absurd h5 (i.noIntoInit _ _)
+      · have hpk := i.finalsKeys _ h4
+        refine ⟨fun e => absurd e (cp_ne_c i hc h1 hpk), fun k2 p2 hk1 _ hp2 e => ?_⟩
+        obtain ⟨rfl, rfl⟩ := dec h1 hpk hk1 hp2 e
+        rcases hD.2 (k2 + 1) b.init (by omega) (by omega) i.initKey rfl with
+          ⟨u, v, hu, ⟨m, hm1, hm2, hm3⟩, rfl⟩ | ⟨_, e2, _⟩
+        · refine Or.inl ⟨[], u ++ v, Acc.of_final h4, ⟨m + 1, by omega, fun h0 e0 => ?_, ?_⟩, rfl⟩
+          · have := hm2 h0 e0; omega
+          · exact ⟨u, v, hu, hm3, rfl⟩
+        · omega
+      · have hpk := i.finalsKeys _ h4
+        refine ⟨fun e => absurd e (cp_ne_c i hc hN hpk), fun k2 p2 hk1 _ hp2 e => ?_⟩
+        obtain ⟨rfl, rfl⟩ := dec hN hpk hk1 hp2 e
+        rcases hD.2 (repCopies lo hi) b.init hN (Nat.le_refl _) i.initKey rfl with
+          ⟨u, v, hu, ⟨m, hm1, hm2, hm3⟩, rfl⟩ | ⟨e1, e2, _, rfl⟩
+        · refine Or.inl ⟨[], u ++ v, Acc.of_final h4, ⟨m + 1, by omega, fun h0 e0 => ?_, ?_⟩, rfl⟩
+          · rw [hnone] at e0; cases e0
+          · exact ⟨u, v, hu, hm3, rfl⟩
+        · refine Or.inl ⟨[], [], Acc.of_final h4, ⟨0, by omega, fun h0 e0 => ?_, rfl⟩, rfl⟩
+          rw [hnone] at e0; cases e0)
+    (by
+      intro s x t w hs hD
+      rcases (sp.tg s (some x) t).mp hs with (⟨_, e, _⟩ | ⟨k, p, p', h1, h2, rfl, rfl, h5⟩ |
+        ⟨k, p, h1, h2, e, _⟩) | ⟨_, e, _⟩
+      · cases e
+      · have hpk := i.srcKey h5
+        have hpk' := i.tgtKeys _ _ _ h5
+        refine ⟨fun e => absurd e (cp_ne_c i hc h1 hpk), fun k2 p2 hk1 _ hp2 e => ?_⟩
+        obtain ⟨rfl, rfl⟩ := dec h1 hpk hk1 hp2 e
+        rcases hD.2 k2 p' h1 h2 hpk' rfl with ⟨u, v, hu, hv, rfl⟩ | ⟨_, _, e3, _⟩
+        · exact Or.inl ⟨x :: u, v, Acc.sym h5 hu, hv, rfl⟩
+        · subst e3; exact absurd h5 (i.noIntoInit _ _)
+      · cases e
+      · cases e)
+    hp hf
+  rcases key.1 rfl with ⟨u, v, hu, ⟨m, hm1, hm2, hm3⟩, rfl⟩ | ⟨h1, _, _, rfl⟩
+  · exact ⟨m + 1, by omega, fun h0 e0 => by have := hm2 h0 e0; omega, ⟨u, v, hu, hm3, rfl⟩⟩
+  · exact ⟨0, by omega, fun h0 _ => Nat.zero_le _, rfl⟩
+
+theorem repeat_chain {b r : Builder α} {l h c lo : Nat} {hi : Option Nat} (i : b.Inv l h)
+    (hc : h ≤ c) (sp : RepSpec b c lo hi r) :
+    ∀ (m : Nat) (w : List α), LPow b.Lang (m + 1) w → ∀ j, 1 ≤ j → j ≤ repCopies lo hi →
+      (hi = none ∨ j + m ≤ repCopies lo hi) →
+      ∃ f, f ∈ b.finals ∧
+        Path r.step (b.cp c j b.init) w (b.cp c (min (j + m) (repCopies lo hi)) f) := by
+  have embed : ∀ {k p u p'}, 1 ≤ k → k ≤ repCopies lo hi → Path b.step p u p' →
+      Path r.step (b.cp c k p) u (b.cp c k p') := by
+    intro k p u p' h1 h2 hp
+    exact hp.map (b.cp c k) (fun q a t hst =>
+      (sp.tg _ _ _).mpr (Or.inl (Or.inr (Or.inl ⟨k, q, t, h1, h2, rfl, rfl, hst⟩))))
+  intro m
+  induction m with
+  | zero =>
+    intro w hw j hj1 hj2 _
+    obtain ⟨u, v, ⟨f, hf, hp⟩, hv, rfl⟩ := hw
+    simp only [LPow] at hv
+    subst hv
+    refine ⟨f, hf, ?_⟩
+    have : min (j + 0) (repCopies lo hi) = j := by omega
+    rw [this, List.append_nil]
+    exact embed hj1 hj2 hp
+  | succ m ih =>
+    intro w hw j hj1 hj2 hcase
+    obtain ⟨u, v, ⟨f1, hf1, hp1⟩, hv, rfl⟩ := hw
+    have p1 := embed hj1 hj2 hp1
+    by_cases hlt : j < repCopies lo hi
+    · obtain ⟨f, hf, hp2⟩ := ih v hv (j + 1) (by omega) (by omega) (by
+        rcases hcase with h0 | h0
+        · exact Or.inl h0
+        · exact Or.inr (by omega))
+      refine ⟨f, hf, ?_⟩
+      have e : r.step (b.cp c j f1) none (b.cp c (j + 1) b.init) :=
+        (sp.tg _ _ _).mpr (Or.inl (Or.inr (Or.inr ⟨j, f1, hj1, hlt, rfl, hf1, rfl, rfl⟩)))
+      have : min (j + (m + 1)) (repCopies lo hi) = min (j + 1 + m) (repCopies lo hi) := by omega
+      rw [this]
+      exact p1.trans (Path.eps e hp2)
+    · have hjN : j = repCopies lo hi := by omega
+      have hnone : hi = none := by
+        rcases hcase with h0 | h0
+        · exact h0
+        · omega
+      obtain ⟨f, hf, hp2⟩ := ih v hv j hj1 hj2 (Or.inl hnone)
+      refine ⟨f, hf, ?_⟩
+      have e : r.step (b.cp c j f1) none (b.cp c j b.init) := by
+        refine (sp.tg _ _ _).mpr (Or.inr ⟨hnone, rfl, f1, hf1, ?_, ?_⟩)
+        · rw [hjN]
+        · rw [hjN]
+      have : min (j + (m + 1)) (repCopies lo hi) = min (j + m) (repCopies lo hi) := by omega
+      rw [this]
+      exact p1.trans (Path.eps e hp2)
+
+theorem repeat_complete {b r : Builder α} {l h c lo : Nat} {hi : Option Nat} (_i : b.Inv l h)
+    (_hc : h ≤ c) (sp : RepSpec b c lo hi r) (w : List α) (hw : RepDen b.Lang lo hi w) :
+    r.Lang w := by
+  have hN := repCopies_pos lo hi
+  obtain ⟨k, hk1, hk2, hk3⟩ := hw
+  have e0 : r.step c none b.init := (sp.tg _ _ _).mpr (Or.inl (Or.inl ⟨rfl, rfl, rfl⟩))
+  cases k with
+  | zero =>
+    simp only [LPow] at hk3
+    subst hk3
+    refine ⟨b.init, (sp.finals _).mpr (Or.inr (Or.inl ⟨by omega, rfl⟩)), ?_⟩
+    rw [sp.init]
+    exact Path.single_eps e0
+  | succ m =>
+    have hcase : hi = none ∨ 1 + m ≤ repCopies lo hi := by
+      cases hi with
+      | none => exact Or.inl rfl
+      | some h0 =>
+        have := hk2 h0 rfl
+        right; unfold repCopies; simp only; omega
+    obtain ⟨f, hf, hp⟩ := repeat_chain _i _hc sp m w hk3 1 (by omega) hN hcase
+    rw [cp_one] at hp
+    have hNlo : lo ≤ repCopies lo hi := by
+      cases hi with
+      | none => unfold repCopies; simp only; omega
+      | some h0 => have := hk2 h0 rfl; unfold repCopies; simp only; omega
+    refine ⟨_, ?_, by rw [sp.init]; exact Path.eps e0 hp⟩
+    by_cases he : min (1 + m) (repCopies lo hi) = 1
+    · rw [he, cp_one]
+      refine (sp.finals _).mpr (Or.inl ⟨?_, ?_, hf⟩)
+      · cases hi with
+        | none => unfold repCopies at he; simp only at he; omega
+        | some h0 => have := hk2 h0 rfl; unfold repCopies at he; simp only at he; omega
+      · intro h0 e1; have := hk2 h0 e1; omega
+    · exact (sp.finals _).mpr (Or.inr (Or.inr ⟨_, f, by omega, by omega, by omega, hf, rfl⟩))
+
+/-- `repeat`: succeeds on a builder satisfying the invariant, the result satisfies it again and
+its language is `⋃_{lo ≤ k ≤ hi} L^k`. -/
+theorem repeat_spec {b : Builder α} {l h c : Nat} (i : b.Inv l h) (hc : h ≤ c) (lo : Nat)
+    (hi : Option Nat) :
+    ∃ r c', b.repeat_ lo hi c = .ok (r, c') ∧ c < c' ∧ r.Inv l c' ∧
+      ∀ w, r.Lang w ↔ RepDen b.Lang lo hi w := by
+  obtain ⟨r, hr, sp⟩ := repeat_ok i hc lo hi
+  exact ⟨r, _, hr, blockBase_gt b c _, repeat_inv i hc sp,
+    fun w => ⟨repeat_sound i hc sp w, repeat_complete i hc sp w⟩⟩
 
 end Builder
 end AV.Rx
